@@ -114,12 +114,13 @@ class Sandbox:
     they would repeat the same mechanism, and each report costs a symbolizer round trip.
     """
 
-    def __init__(self, res: Result, watch: SanWatch, max_reforks=30, deadline=None, group_cap=3):
+    def __init__(self, res: Result, watch: SanWatch, max_reforks=30, deadline=None, group_cap=3, max_report_cases=40):
         self.res = res
         self.watch = watch
         self.max_reforks = max_reforks
         self.deadline = deadline
         self.group_cap = group_cap
+        self.max_report_cases = max_report_cases  # per run(): a tree this broken needs no more witnesses
         self.group_hits = {}
 
     def run(self, cases, fn, make_case, setup=None, use_fork=True, group_of=None):
@@ -159,6 +160,9 @@ class Sandbox:
             if self.group_hits.get(grp, 0) >= self.group_cap:
                 local.count("cases_skipped_group_report_cap")
                 continue
+            if sum(self.group_hits.values()) >= self.max_report_cases:
+                local.count("cases_skipped_after_report_cap", len(cases) - idx)
+                return len(cases), "report-cap"
             if shm is not None:
                 struct.pack_into("qq", shm, 0, idx, done)
             stop = fn(ctx, case, local)
